@@ -61,22 +61,34 @@ def showRC (r : Except Err RouteCheck) : String :=
   | .error e => showErr e
   | .ok rc => s!"ok:{showBool rc.feas}:{showRat rc.cost}"
 
-/-- `path.hist <graph> <k> {route}` → per route `check result ; add result`, then pool and data -/
+inductive PathOp where
+  | route (r : List Stop)
+  | graph (op : GOp)
+
+def pPathOp : P PathOp := do
+  let t ← tok
+  if t = "R" then do let r ← pList pStop; pure (.route r)
+  else do modify (t :: ·); let op ← pGOp; pure (.graph op)
+
+/-- `path.hist <graph> <k> {R route | N … | A … | D …}` → per op result, then pool and data -/
 def cmdPathHist : P String := do
   let g ← pGraph
-  let routes ← pList (pList pStop)
+  let ops ← pList pPathOp
   pEnd
-  let rec go (P : PathInst) (rs : List (List Stop)) (acc : List String) : PathInst × List String :=
-    match rs with
+  let rec go (P : PathInst) (ops : List PathOp) (acc : List String) : PathInst × List String :=
+    match ops with
     | [] => (P, acc.reverse)
-    | r :: rest =>
+    | .route r :: rest =>
       let chk := checkRoute P.g r
       let a := P.addRoute r
       let s := match a.2 with
         | .error e => showErr e
         | .ok (f, ad) => s!"ok:{showBool f}:{showBool ad}"
       go a.1 rest (s!"{showRC chk} {s}" :: acc)
-  let r := go { g := g } routes []
+    | .graph op :: rest =>
+      let r := gstep .base P.g op
+      go { P with g := r.1 } rest (showGOut r.2 :: acc)
+  let r := go { g := g } ops []
   let P := r.1
   pure s!"ok {" ; ".intercalate r.2} | {showList (fun rt => showList toString rt) P.routes} | {showRat P.suffPenalty} | {showMP P.data}"
 
